@@ -114,7 +114,7 @@ def gen_c17_random(rnd, tier):
     for _ in range(nroots):
         xs, ys = _root(rnd, 4, 40)
         lo, hi = xs[0], xs[-1]
-        sc = rnd.choice((0, 0, -3, 4))
+        sc = rnd.choice((0, 0, -3, 4, -20, 12))
         q = lambda: {'ts': _probes(rnd, xs, 6), 'lv': _levels(rnd, ys, 2), 'pl': _plateaus(rnd, xs, 2)}
         out.append({'op': 'reset'})
         out.append(dict({'m': 'series', 'op': 'root', 'xs': xs, 'ys': ys, 'sc': sc}, ts=_probes(rnd, xs, 14), lv=_levels(rnd, ys, 4), pl=_plateaus(rnd, xs, 6)))
@@ -165,5 +165,5 @@ def gen_c17_random(rnd, tier):
         d = abs(a - b) * 60
         n = (rnd.choice(_divisors(d, 120)) + 1) if d else rnd.randint(0, 6)
         out.append({'m': 'series', 'op': 'dom_linear', 'kind': rnd.choice(('linear', 'space')), 'a4': a, 'b4': b,
-                    'n': n if rnd.random() < 0.9 else rnd.randint(0, 2), 'sc': rnd.choice((0, -3, 4))})
+                    'n': n if rnd.random() < 0.9 else rnd.randint(0, 2), 'sc': rnd.choice((0, -3, 4, -20, 12))})
     return out
